@@ -22,6 +22,12 @@ CHECKS = {
    text="Every (kind, len, start, stop, step) of the stated box is enumerated (8 value kinds x len 0..=6 x 20 x 20 x 10 bounds, literal and variable form) together with i64-boundary and beyond-i64 rows and random cases; results (kind and items) are compared with an independent model of Python's slicing and subscripting.",
    note="Trusts model/pyslice.rs (unit tested on CPython examples, cross-checked with python3 in the thorough tier). Out-of-range subscripts are expected to be undefined. Exhaustive only inside the stated box.",
    design="3/C09"),
+ "C17": dict(
+   technique="property-based testing: complete enumeration of template names over the quantifier's segment alphabet plus proptest-generated noise names, validity oracle on the returned content against a scratch directory tree with canary files; safe_join additionally checked as a pure function",
+   level="exploration",
+   text="Every join of up to 5 segments of the 14-entry alphabet (579 194 names) and generated noise names are loaded through get_template, include, include-list, extends and import from a real directory tree whose files state their own relative path and whose surroundings hold OUTSIDE canaries; an Ok result must be the INSIDE file named by the non-empty, non-dot segments. safe_join (via the verif_hooks re-export) must return None or a path whose components are exactly those segments.",
+   note="Assumes Linux path semantics and no symlinks inside the base. Exhaustive only over the stated alphabet and length.",
+   design="3/C17"),
 }
 
 NOT_YET = "check not built yet in this session (work in progress; see DESIGN.md section 3 for the planned check)"
